@@ -46,6 +46,11 @@ pub fn gen_mode_graph_case(d: &mut Dec, thorough: bool, lookaheads: usize) -> Ca
         ..Case::default()
     };
     let model = case.model();
+    if large && d.chance(10) {
+        // offsets, token counts and line counts beyond 65 535
+        case.inputs.push(gen::gen_huge_input(d, &model));
+        return case;
+    }
     if large {
         if d.chance(90) {
             // one very long token
